@@ -77,6 +77,22 @@ func main() {
 				}
 			}
 		}
+	case "script":
+		// gvc script <func> <obligation-substring>: print the standalone SMT script of one obligation
+		w, err := LoadWorld(*repo, *verif, nil)
+		if err != nil {
+			fmt.Fprintln(os.Stderr, "load:", err)
+			os.Exit(2)
+		}
+		for _, k := range w.matchFuncs(args[1]) {
+			e := encodeFunction(w, w.Funcs[k], w.CS.Funcs[k])
+			for _, o := range e.obls {
+				if strings.Contains(o.Name, args[2]) {
+					fmt.Println(e.script(o, true))
+					return
+				}
+			}
+		}
 	case "check":
 		if len(args) < 2 {
 			fmt.Fprintln(os.Stderr, "usage: gvc check <prop> [quick|thorough]")
